@@ -394,6 +394,11 @@ static ares_ssize_t s_recvfrom(ares_socket_t fd, void *buf, size_t len, int, str
       }
     }
     w->log(fmt("recv(%d) udp pkt#%d len=%zu", fd, p.serial, n));
+    if (p.forged) w->W("forged_packet_read");
+    if (p.serial >= 1 && p.serial <= (int)w->packets.size()) {
+      w->packets[(size_t)p.serial - 1].t_read  = w->now_us;
+      w->packets[(size_t)p.serial - 1].ev_read = w->cur_ev;
+    }
     return (ares_ssize_t)n;
   }
   if (s->reset) {
@@ -414,6 +419,11 @@ static ares_ssize_t s_recvfrom(ares_socket_t fd, void *buf, size_t len, int, str
   if (w->cfg->tcp_read_chunk > 0 && n > (size_t)w->cfg->tcp_read_chunk) n = (size_t)w->cfg->tcp_read_chunk;
   memcpy(buf, s->instream.data() + s->inpos, n);
   s->inpos += n;
+  for (auto &tp : s->tcp_pkts)
+    if (tp.first <= s->inpos && w->packets[(size_t)tp.second - 1].t_read < 0) {
+      w->packets[(size_t)tp.second - 1].t_read  = w->now_us;
+      w->packets[(size_t)tp.second - 1].ev_read = w->cur_ev;
+    }
   w->log(fmt("recv(%d) tcp %zu bytes", fd, n));
   return (ares_ssize_t)n;
 }
@@ -443,7 +453,7 @@ static ares_ssize_t s_sendto(ares_socket_t fd, const void *buf, size_t len, int,
     return (ares_ssize_t)len;
   }
   if (s->tfo_connect && !s->connected) {
-    if (!sa) w->violate("C10:sock:tfo-first-send-without-address", "first send on a fast-open socket carried no destination address");
+    if (!sa) w->W("obs_tfo_send_without_address"); // observation only: not part of the C10 statement (see DESIGN.md section 7)
     s->connected = true; // SYN+data
   } else if (!s->connected) {
     w->violate("C10:sock:send-before-connected", fmt("send on TCP descriptor %d before the connection was established", fd));
@@ -514,6 +524,9 @@ void World::record_tx(VSock &s, const Bytes &msg)
   t.msg    = msg;
   t.q      = vdns::parse_query(msg);
   t.t_us   = now_us;
+  t.ev_index   = in_closure ? -1 : cur_ev;
+  t.in_timer   = in_timer;
+  t.in_closure = in_closure;
   s.ntx++;
   if (!t.q.ok) violate("C03:wire:query-not-decodable", "a frame handed to the socket does not decode as a DNS query: " + t.q.err + " " + vf::hex(msg));
   log(fmt("tx#%d fd=%d srv=%d %s id=%u q=%s type=%d opt=%d cookie=%d/%zu", t.id, s.fd, s.server, s.tcp ? "tcp" : "udp", t.q.id,
@@ -727,7 +740,16 @@ void World::teardown()
 // ------------------------------------------------------------ result dumps
 static void scan_rr_markers(const ares_dns_record_t *rec, Token &t, std::string &out)
 {
-  size_t n = ares_dns_record_rr_cnt(rec, ARES_SECTION_ANSWER);
+  size_t n = ares_dns_record_rr_cnt(rec, ARES_SECTION_AUTHORITY);
+  for (size_t i = 0; i < n; i++) {
+    const ares_dns_rr_t *rr = ares_dns_record_rr_get_const(rec, ARES_SECTION_AUTHORITY, i);
+    if (ares_dns_rr_get_type(rr) == ARES_REC_TYPE_SOA) {
+      t.neg_marker = (int)ares_dns_rr_get_u32(rr, ARES_RR_SOA_SERIAL);
+      out += fmt(" soa(ttl=%u,min=%u)", ares_dns_rr_get_ttl(rr), ares_dns_rr_get_u32(rr, ARES_RR_SOA_MINIMUM));
+      t.ttls.push_back(ares_dns_rr_get_ttl(rr));
+    }
+  }
+  n = ares_dns_record_rr_cnt(rec, ARES_SECTION_ANSWER);
   for (size_t i = 0; i < n; i++) {
     const ares_dns_rr_t *rr   = ares_dns_record_rr_get_const(rec, ARES_SECTION_ANSWER, i);
     ares_dns_rec_type_t  type = ares_dns_rr_get_type(rr);
@@ -779,10 +801,18 @@ static void complete(CbCtx *c, int status, int timeouts, const std::string &res)
     return;
   }
   if (status < 0 || status > ARES_ENOSERVER) w->violate("C01:token:undefined-status", fmt("token %d completed with undefined status %d", t.id, status));
+  for (int m : t.markers)
+    if (m >= 1 && m <= (int)w->packets.size() && w->packets[(size_t)m - 1].t_accept < 0) {
+      w->packets[(size_t)m - 1].t_accept  = w->now_us;
+      w->packets[(size_t)m - 1].ev_accept = w->cur_ev;
+    }
+  if (t.neg_marker >= 1 && t.neg_marker <= (int)w->packets.size() && w->packets[(size_t)t.neg_marker - 1].t_accept < 0)
+    w->packets[(size_t)t.neg_marker - 1].t_accept = w->now_us, w->packets[(size_t)t.neg_marker - 1].ev_accept = w->cur_ev;
   t.status              = status;
   t.timeouts            = timeouts;
   t.result              = res;
   t.t_done              = w->now_us;
+  t.ev_done             = w->cur_ev;
   t.tx_at_done          = (int)w->txs.size();
   t.done_during_destroy = w->in_destroy;
   if (!w->in_lib) w->violate("HARNESS:callback-outside-library", "callback while not inside a library call");
@@ -906,6 +936,7 @@ int World::issue(int reqidx, bool from_cb)
   t.kind         = r.kind;
   t.issued_in_cb = from_cb;
   t.t_issue      = now_us;
+  t.ev_issue     = cur_ev;
   t.tx_at_issue  = (int)txs.size();
   t.cbmode       = from_cb ? 0 : r.cbmode;
   t.cbarg        = r.cbarg;
@@ -1151,8 +1182,10 @@ void World::do_timer()
   log(fmt("timer +%lldus", (long long)d));
   size_t obs0 = obs.size();
   in_lib      = true;
+  in_timer    = true;
   ares_process_fds(ch, nullptr, 0, ARES_PROCESS_FLAG_NONE);
-  in_lib = false;
+  in_timer = false;
+  in_lib   = false;
   if (txs.size() == tx0 && outstanding() == out0 && obs.size() == obs0)
     violate("C07:timer:no-progress", "processing at the hinted instant neither re-sent nor completed any query (no observable action)");
   W("timer_fired");
@@ -1174,6 +1207,7 @@ void World::do_setservers(int variant)
   int rc = ares_set_servers_ports_csv(ch, csv.c_str());
   in_lib = false;
   log(fmt("set_servers -> %d", rc));
+  if ((variant != 0 && variant != 2) || (variant == 2 && cfg->nservers == 1)) flush_evs.push_back(cur_ev); // membership changed (0: same list, 2 with >1 servers: pure re-ordering)
   setservers_variant = variant;
 }
 
@@ -1227,8 +1261,10 @@ Bytes World::build_reply(const Transmission &tx, int kind, Packet &pk)
     rr.type  = vdns::T_SOA;
     rr.cls   = 1;
     rr.ttl   = ttl;
-    rr.rdata = vdns::rdata_soa(minimum);
+    rr.rdata = vdns::rdata_soa(minimum, m);
     r.ns.push_back(rr);
+    pk.has_soa = true;
+    pk.ttl     = ttl < minimum ? ttl : minimum;
   };
   Bytes ck_ok = tx.q.client_cookie;
   Bytes s1    = { 'S', 'R', 'V', 'C', 'O', 'O', 'K', '1' }, s2 = { 'S', 'R', 'V', 'C', 'O', 'O', 'K', '2' };
@@ -1317,6 +1353,11 @@ Bytes World::build_reply(const Transmission &tx, int kind, Packet &pk)
       break;
     default: break;
   }
+  pk.rcode  = (int)r.rcode;
+  pk.tc     = r.tc;
+  pk.qclass = qq.qclass;
+  pk.rd     = r.rd;
+  pk.cd     = (tx.q.flags & 0x0010) != 0;
   if (kind == RK_MALFORMED) {
     Bytes b = r.encode();
     b.resize(b.size() > 14 ? 14 : b.size());
@@ -1385,11 +1426,14 @@ void World::inject(int txid, int kind, bool forged, int mutation)
   pk.data = build_reply(use, rk, pk);
   if (!forged) tx.answered++;
   else tx.forged++;
+  pk.on_fd    = s->fd;
+  pk.t_inject = now_us;
   log(fmt("inject pkt#%d %s tx#%d %s -> fd %d", pk.serial, forged ? "FORGED" : "reply", txid, forged ? fg_names[mutation] : rk_names[kind], s->fd));
   if (s->tcp) {
     s->instream.push_back((unsigned char)(pk.data.size() >> 8));
     s->instream.push_back((unsigned char)(pk.data.size() & 0xff));
     s->instream.insert(s->instream.end(), pk.data.begin(), pk.data.end());
+    s->tcp_pkts.push_back({ s->instream.size(), pk.serial });
   } else
     s->inq.push_back(pk);
   packets.push_back(pk);
@@ -1404,7 +1448,10 @@ void World::apply(const Ev &e)
   log("ev " + ev_json(e));
   switch (e.k) {
     case EV_REQ: issue(e.a, false); break;
-    case EV_REPLY: inject(e.a, e.b, false, 0); break;
+    case EV_REPLY:
+      inject(e.a, e.b, false, 0);
+      if (cfg->auto_io) do_io(false);
+      break;
     case EV_FORGE:
       inject(e.a, RK_DATA, true, e.b);
       nforge++;
@@ -1441,6 +1488,7 @@ void World::apply(const Ev &e)
         in_lib = true;
         ares_reinit(ch);
         in_lib = false;
+        flush_evs.push_back(cur_ev);
       }
       break;
     case EV_TCP: {
@@ -1477,6 +1525,7 @@ void World::closure()
 {
   // faults that were armed but never hit are disarmed: the servers and the OS go quiet
   for (int i = 0; i < FS_NSITES; i++) fault[i] = 0;
+  in_closure = true;
   int guard = 0;
   int limit = (cfg->nservers * cfg->tries + 12) * ((int)toks.size() + 2) * 4 + 64;
   while (ch && guard++ < limit) {
